@@ -28,6 +28,9 @@ pub enum UpBehaviour {
     AnswerFrom { nth: u32, delay_ms: u64 },
     /// answer twice
     Dup { gap_ms: u64 },
+    /// a drop pattern over the transmissions of one upstream query: transmission i (from 1)
+    /// is answered iff bit i-1 of `mask` is set, after `delays_ms[i-1]` milliseconds
+    Pattern { mask: u8, delays_ms: Vec<u64> },
     /// first a reply with another id (spoof), then nothing on UDP; TCP answers normally
     WrongId,
     /// UDP answers are truncated (TC, no records); TCP gives the full answer
@@ -574,7 +577,8 @@ pub fn generate(seed: u64, g: &GenB) -> PlanB {
         let up = if faulty {
             match r.below(14) {
                 0 => UpBehaviour::Silent,
-                1 => UpBehaviour::AnswerFrom { nth: r.range(1, 4) as u32, delay_ms: r.range(1, 100) },
+                1 if r.chance(0.5) => UpBehaviour::AnswerFrom { nth: r.range(1, 4) as u32, delay_ms: r.range(1, 100) },
+                1 => UpBehaviour::Pattern { mask: r.range(0, 31) as u8, delays_ms: (0..5).map(|_| *r.pick(&[1u64, 20, 200, 700, 900, 1500, 4000])).collect() },
                 2 => UpBehaviour::Dup { gap_ms: r.range(0, 3000) },
                 3 => UpBehaviour::WrongId,
                 4 => UpBehaviour::Tc,
